@@ -486,8 +486,14 @@ func C06(r *ev.Run) {
 				if tag := trees[c.Tree].Tag; tag != "" {
 					sig = tag + "|" + sig
 				}
-				if len(trees[c.Tree].Dirs) >= 8 && !c.Deep {
-					sig = fmt.Sprintf("chain%d-without-DeepDirectories|", len(trees[c.Tree].Dirs)) + sig
+				depth := 0
+				for _, d := range trees[c.Tree].Dirs {
+					if n := strings.Count(d, "/") + 1; n > depth {
+						depth = n
+					}
+				}
+				if depth >= 8 && !c.Deep {
+					sig = fmt.Sprintf("chain%d-without-DeepDirectories|", depth) + sig
 				}
 			}
 			r.Report("c06|"+sig, msg, c)
